@@ -773,3 +773,277 @@ def c19_transition(ctx: Ctx) -> List[Violation]:
         if w is not None and w == 0:
             ctx.cov["c19:pickup_zero_wait"] += 1
     return out
+
+
+# ---------------------------------------------------------------------------------------------------
+# C18 -- charging queues are first-come first-served
+
+
+def c18_transition(ctx: Ctx) -> List[Violation]:
+    out: List[Violation] = []
+    instructed = ctx.instructed()
+    pre_q = {vid: v.vehicle_state for vid, v in ctx.pre.vehicles.items() if sname(v) == "ChargeQueueing"}
+    if len(pre_q) >= 2:
+        ctx.cov["c18:two_or_more_queued"] += 1
+    for a, sa in pre_q.items():
+        pa = ctx.post.vehicles[a].vehicle_state
+        if pa.__class__.__name__ != "ChargingStation":
+            if pa.__class__.__name__ != "ChargeQueueing":
+                ctx.cov["c18:abandoned_queue"] += 1
+            continue
+        if a in instructed:
+            ctx.cov["c18:instructed_plug_in"] += 1  # the controller chose who plugs in; not the queue's grant
+            continue
+        ctx.cov["c18:grant_by_queue"] += 1
+        for b, sb in pre_q.items():
+            if b == a or (sb.station_id, sb.charger_id) != (sa.station_id, sa.charger_id):
+                continue
+            pb = ctx.post.vehicles[b].vehicle_state
+            if pb.__class__.__name__ != "ChargeQueueing":
+                continue
+            ctx.cov["c18:grant_while_another_keeps_waiting"] += 1
+            if int(sb.enqueue_time) < int(sa.enqueue_time):
+                out.append(
+                    Violation("C18", "overtaken", (sa.charger_id,), f"{a} (queued at {int(sa.enqueue_time)}) was granted the {sa.charger_id} plug at {sa.station_id} while {b}, queued since {int(sb.enqueue_time)}, keeps waiting")
+                )
+            elif int(sb.enqueue_time) == int(sa.enqueue_time):
+                ctx.cov["c18:tie_on_enqueue_time"] += 1
+                if b < a:
+                    out.append(Violation("C18", "tie_not_by_id", (sa.charger_id,), f"{a} and {b} joined the queue together; {a} was granted the plug before {b}"))
+    return out
+
+
+# ---------------------------------------------------------------------------------------------------
+# C16 -- earlier states never modified (the work is done by the wrapped transition of w_imm)
+
+
+def c16_transition(ctx: Ctx) -> List[Violation]:
+    f = getattr(ctx.reports, "findings", None)
+    if f is None:
+        raise RuntimeError("C16 monitor needs an immutability world (w_imm)")
+    for k, v in getattr(ctx.reports, "counts", {}).items():
+        ctx.cov[f"c16:{k}"] += v
+    return [Violation("C16", clause, (where,), msg) for clause, where, msg in f]
+
+
+# ---------------------------------------------------------------------------------------------------
+# C09 -- instructions all-or-nothing (atomicity) and one per vehicle per step (precedence)
+
+_TARGET_ACTIVITY = {
+    "Idle": ("Idle",),
+    "OutOfService": ("OutOfService",),
+    "DispatchTrip": ("DispatchTrip",),
+    "DispatchStation": ("DispatchStation", "ChargingStation"),
+    "ChargeStation": ("ChargingStation",),
+    "DispatchBase": ("DispatchBase",),
+    "ReserveBase": ("ReserveBase",),
+    "ChargeBase": ("ChargingBase",),
+    "Reposition": ("Repositioning",),
+}
+
+
+def _differences(a, b) -> List[str]:
+    """names of the SimulationState fields that differ (deep equality of the immutable values)"""
+    return [f for f in a._fields if f != "road_network" and getattr(a, f) != getattr(b, f)] + (
+        ["road_network"] if a.road_network is not b.road_network else []
+    )
+
+
+def c09_atomicity(ctx: Ctx) -> List[Violation]:
+    """on the post-state of every explored transition: every single instruction of the menu"""
+    from nrel.hive.state.simulation_state.update.step_simulation_ops import apply_instructions
+    from .worlds import mk_instruction
+    import immutables
+
+    out: List[Violation] = []
+    s = ctx.post._replace(applied_instructions=immutables.Map())
+    env = ctx.env
+    refused = []
+    for ev in ctx.world.atomic_menu:
+        kind, vid = ev[1], ev[2]
+        i = mk_instruction(ev)
+        s2 = apply_instructions(s, env, (i,))
+        ctx.world.env.reporter.take()
+        v0, v2 = s.vehicles.get(vid), s2.vehicles.get(vid)
+        if v0 is None:
+            if s2 != s:
+                out.append(Violation("C09", "missing_vehicle_changed_state", (kind,), f"{kind} for missing vehicle {vid} changed {_differences(s, s2)}"))
+            continue
+        unchanged = v2.vehicle_state is v0.vehicle_state or v2.vehicle_state == v0.vehicle_state
+        if v2.vehicle_state is not v0.vehicle_state and type(v2.vehicle_state) is type(v0.vehicle_state) and v2.vehicle_state.instance_id != v0.vehicle_state.instance_id:
+            unchanged = False  # re-entered the same kind of activity (new session)
+        a0 = sname(v0)
+        if unchanged:
+            refused.append(ev)
+            ctx.cov[f"c09:refused:{kind}"] += 1
+            if s2 != s:
+                diff = _differences(s, s2)
+                out.append(Violation("C09", "rejected_but_changed", (kind, ",".join(diff)), f"{kind} for {vid} ({a0}) was rejected, yet these fields changed: {diff}"))
+        else:
+            ctx.cov[f"c09:entered:{kind}"] += 1
+            if sname(v2) not in _TARGET_ACTIVITY[kind]:
+                out.append(Violation("C09", "entered_other_activity", (kind, sname(v2)), f"{kind} for {vid} ({a0}) led to {sname(v2)}"))
+            for c, d, m in c02_state(s2):
+                out.append(Violation("C09", "accepted_inconsistent", (kind, "C02:" + c), f"after accepting {kind} for {vid} ({a0}): {m}"))
+            for c, d, m in c07_state(s2):
+                out.append(Violation("C09", "accepted_inconsistent", (kind, "C07:" + c), f"after accepting {kind} for {vid} ({a0}): {m}"))
+            for c, d, m in c17_state(s2):
+                out.append(Violation("C09", "accepted_inconsistent", (kind, "C17:" + c), f"after accepting {kind} for {vid} ({a0}): {m}"))
+            # the other vehicles are untouched
+            for ovid, ov in s2.vehicles.items():
+                if ovid != vid and ov is not s.vehicles[ovid] and ov != s.vehicles[ovid]:
+                    out.append(Violation("C09", "other_vehicle_touched", (kind,), f"{kind} for {vid} changed vehicle {ovid}"))
+    # a rejected instruction for one vehicle does not disturb the instructions of others
+    if ctx.world.atomic_pairs:
+        others = ctx.world.pair_menu
+        for i_ev in [r for r in refused if r in ctx.world.pair_menu]:
+            u = i_ev[2]
+            i = mk_instruction(i_ev)
+            for j_ev in others:
+                if j_ev[2] == u:
+                    continue
+                j = mk_instruction(j_ev)
+                sj = apply_instructions(s, env, (j,))
+                sji = apply_instructions(sj._replace(applied_instructions=immutables.Map()), env, (i,))
+                # only pairs where i is refused both on s and after j (j neither needs nor enables i)
+                if sji.vehicles.get(u) is None or sji.vehicles[u].vehicle_state != sj.vehicles[u].vehicle_state:
+                    continue
+                ctx.cov["c09:pairs"] += 1
+                want = sj._replace(applied_instructions=immutables.Map())
+                for order in ((i, j), (j, i)):
+                    got = apply_instructions(s, env, order)
+                    got_cmp = got._replace(applied_instructions=immutables.Map())
+                    if got_cmp != want:
+                        # vehicles may differ by a fresh instance id only
+                        from .canon import canon_sim_full
+
+                        if canon_sim_full(got_cmp) != canon_sim_full(want):
+                            out.append(Violation("C09", "rejected_disturbs_other", (i_ev[1], j_ev[1]), f"{i_ev[1]} for {u} is rejected, yet applying it together with {j_ev[1]} for {j_ev[2]} gives a different state than {j_ev[1]} alone ({_differences(got_cmp, want)})"))
+                ctx.world.env.reporter.take()
+    return out
+
+
+def c09_precedence(ctx: Ctx) -> List[Violation]:
+    """worlds with two scripted generators: events ("I", kind, vid, ...) belong to G1, ("J", kind, vid, ...) to G2"""
+    out: List[Violation] = []
+    g1 = {e[2]: e for e in ctx.events if e[0] == "I"}
+    g2 = {e[2]: e for e in ctx.events if e[0] == "J"}
+    per_vehicle: Dict[str, list] = {}
+    for r in ctx.reports:
+        if r.report_type.name == "INSTRUCTION":
+            per_vehicle.setdefault(r.report["vehicle_id"], []).append(r.report["instruction_type"])
+    from nrel.hive.state.simulation_state.update.step_simulation_ops import perform_driver_state_updates
+
+    sim_d = perform_driver_state_updates(ctx.world.pre_step(ctx.pre, ctx.events), ctx.env)
+    ctx.env.reporter.take()
+    for vid, v in sim_d.vehicles.items():
+        got = per_vehicle.get(vid, [])
+        if len(got) > 1:
+            out.append(Violation("C09", "two_instructions_one_vehicle", (), f"vehicle {vid}: {got} took effect in one step"))
+            continue
+        stack = tuple(x for x in (g2.get(vid), g1.get(vid)) if x is not None)
+        from .worlds import mk_instruction
+
+        prev = tuple(mk_instruction(("I",) + e[1:]) for e in stack) or None
+        drv = v.driver_state.generate_instruction(sim_d, ctx.env, prev)
+        ctx.env.reporter.take()
+        if drv is not None:
+            want, who = drv.__class__.__name__, "driver"
+        elif vid in g2:
+            want, who = g2[vid][1] + "Instruction", "G2"
+        elif vid in g1:
+            want, who = g1[vid][1] + "Instruction", "G1"
+        else:
+            want, who = None, "nobody"
+        ctx.cov[f"c09:winner:{who}"] += 1
+        if vid in g1 and vid in g2:
+            ctx.cov["c09:both_generators_same_vehicle"] += 1
+        if (got[0] if got else None) != want:
+            out.append(Violation("C09", "wrong_winner", (who, str(want), str(got[0] if got else None)), f"vehicle {vid}: the instruction that took effect is {got[0] if got else None}; expected {want} ({who} speaks last)"))
+            continue
+        if want is not None and who != "driver":
+            # the winner's target activity, if the vehicle changed activity at all in apply_instructions
+            pass
+    return out
+
+
+# ---------------------------------------------------------------------------------------------------
+# C10 -- fleet membership enforced on every interaction
+
+
+def _grants(entity, vehicle) -> bool:
+    """entities without membership are open to all; otherwise a common membership id is needed"""
+    m = set(entity.membership.memberships)
+    return not m or bool(m & set(vehicle.membership.memberships))
+
+
+def c10_state(sim, ctx=None) -> List[Tuple[str, tuple, str]]:
+    out = []
+    for vid, v in sim.vehicles.items():
+        s = v.vehicle_state
+        n = s.__class__.__name__
+        target = None
+        if n == "DispatchTrip":
+            target = sim.requests.get(s.request_id)
+        elif n == "ServicingTrip":
+            target = s.request
+        elif n in ("DispatchStation", "ChargingStation", "ChargeQueueing"):
+            target = sim.stations.get(s.station_id)
+        elif n in ("DispatchBase", "ReserveBase", "ChargingBase"):
+            target = sim.bases.get(s.base_id)
+        if target is None:
+            continue
+        if ctx is not None:
+            ctx.cov[f"c10:activity_with_target:{n}"] += 1
+            if n == "ChargingBase":
+                b = target
+                st = sim.stations.get(b.station_id) if b.station_id else None
+                if st is not None and not _grants(st, v):
+                    ctx.cov["c10:charging_base_station_of_other_fleet(not judged)"] += 1
+        if not _grants(target, v):
+            out.append(("no_access", (n, "vehicle_without_fleet" if not v.membership.memberships else "other_fleet"), f"vehicle {vid} {sorted(v.membership.memberships)} is {n} with {target.id} {sorted(target.membership.memberships)}"))
+    return out
+
+
+def c10_transition(ctx: Ctx) -> List[Violation]:
+    out = [Violation("C10", c, d + (instr_kind(ctx, m.split()[1]),), m) for c, d, m in c10_state(ctx.post, ctx)]
+    # the built-in generators and the drivers, asked on the reached state
+    sim, env = ctx.post, ctx.env
+    for g in getattr(ctx.world, "probe_generators", ()):
+        _, instrs = g.generate_instructions(sim, env)
+        env.reporter.take()
+        out += _c10_judge_instructions(ctx, sim, instrs, g.__class__.__name__)
+    drv = []
+    for v in sim.get_vehicles():
+        i = v.driver_state.generate_instruction(sim, env, None)
+        if i is not None:
+            drv.append(i)
+    env.reporter.take()
+    out += _c10_judge_instructions(ctx, sim, drv, "driver")
+    return out
+
+
+def _c10_judge_instructions(ctx: Ctx, sim, instrs, who: str) -> List[Violation]:
+    out = []
+    for i in instrs:
+        v = sim.vehicles.get(i.vehicle_id)
+        if v is None:
+            continue
+        n = i.__class__.__name__
+        target = None
+        if n == "DispatchTripInstruction":
+            target = sim.requests.get(i.request_id)
+        elif n in ("DispatchStationInstruction", "ChargeStationInstruction"):
+            target = sim.stations.get(i.station_id)
+        elif n in ("DispatchBaseInstruction", "ReserveBaseInstruction", "ChargeBaseInstruction"):
+            target = sim.bases.get(i.base_id)
+        if target is None:
+            continue
+        ctx.cov[f"c10:builtin:{who}:{n[:-11]}"] += 1
+        if not _grants(target, v):
+            out.append(Violation("C10", "builtin_no_access", (who, n[:-11], "vehicle_without_fleet" if not v.membership.memberships else "other_fleet"), f"{who} pairs vehicle {v.id} {sorted(v.membership.memberships)} with {target.id} {sorted(target.membership.memberships)} ({n})"))
+    return out
+
+
+def c10_initial(world, sim) -> List[Violation]:
+    return [Violation("C10", c, d + ("initial",), m) for c, d, m in c10_state(sim)]
